@@ -72,6 +72,7 @@ class Optimizer(Logger, Citable):
         self._model_callback = None
         self._sigma_fraction = sigma_fraction
         self._fit_priors = {}
+        self._user_priors = {}
         self.fitting_parameters = []
         self.fitting_priors = []
 
@@ -116,6 +117,9 @@ class Optimizer(Logger, Citable):
         self.fitting_parameters = []
         self.derived_parameters = []
         self.fitting_priors = []
+        # Default priors follow the current bounds and mode; only priors set
+        # explicitly through set_prior persist across compilations
+        self._fit_priors = dict(self._user_priors)
         # param_name,param_latex,
         #                 fget.__get__(self),fset.__get__(self),
         #                         default_fit,default_bounds
@@ -492,6 +496,7 @@ class Optimizer(Logger, Citable):
             raise ValueError('Fitting parameter does not exist')
 
         self._fit_priors[parameter] = prior
+        self._user_priors[parameter] = prior
 
     def chisq_trans(self, fit_params, data, datastd):
         """
